@@ -22,6 +22,7 @@ import (
 	"sort"
 	"strings"
 	"sync"
+	"time"
 
 	"github.com/ipld/go-ipld-prime/datamodel"
 	"github.com/storacha/go-ucanto/client"
@@ -552,6 +553,10 @@ func execServePanic(args []string) (res Result) {
 		return Result{Impl: "server-error:" + err.Error()}
 	}
 	statuses, problems := cw.serveBatch(srv, &calls)
+	// a panic on one of the server's goroutines runs that goroutine's deferred calls (releasing whoever
+	// waits for it) before the runtime ends the process: give a dying process the time to die before
+	// anything is reported about what it answered
+	time.Sleep(400 * time.Millisecond)
 	mu.Lock()
 	defer mu.Unlock()
 	if len(problems) > 0 && statuses == nil {
